@@ -1359,7 +1359,16 @@ class CSym(object):
             # array of pointers (double **da): element k is its own array
             k = as_int(p.off)
             key = self.canon(p.off)
-            sub = arr.extra_subarrays.setdefault(key, Arr("%s[%s]" % (arr.name, tm.show(tm.lift(p.off), 30)), arr.elem_kind, arr.elem_extent, origin="param"))
+            sub = arr.extra_subarrays.get(key)
+            if sub is None:
+                # the element array is named after its index term; two different index terms never share a name (a numeric suffix separates them when the
+                # printed forms coincide after truncation)
+                nm = "%s[%s]" % (arr.name, tm.show(tm.lift(p.off), 30))
+                if any(x.name == nm for x in arr.extra_subarrays.values()):
+                    nm = "%s~%d" % (nm, len(arr.extra_subarrays))
+                sub = Arr(nm, arr.elem_kind, arr.elem_extent, origin="param")
+                sub.parent, sub.parent_index = arr, tm.lift(p.off)
+                arr.extra_subarrays[key] = sub
             return Ptr(sub)
         if getattr(arr, "const_values", None) is not None:
             k = as_int(p.off)
@@ -1554,6 +1563,8 @@ class CSym(object):
         C, ldc = args[11], tm.lift(val(args[12]))
         ta = chr(ta) if isinstance(ta, int) else ta
         tb = chr(tb) if isinstance(tb, int) else tb
+        ta = ta.upper() if isinstance(ta, str) else ta      # BLAS accepts either case
+        tb = tb.upper() if isinstance(tb, str) else tb
         if ta not in ("N", "T") or tb not in ("N", "T"):
             raise CUnsupported("dgemm_ transposition flag")
         # reference BLAS: C(m,n) = alpha * sum_k opA(m,k) opB(k,n) + beta*C(m,n), column major
